@@ -23,6 +23,15 @@ def main():
         os.execve(sys.executable, [sys.executable] + sys.argv, env)
     os.chdir(HERE)
     sys.path.insert(0, HERE)
+    try:
+        import hypothesis  # noqa: F401  (part of the image; fall back to the offline wheelhouse if it is not)
+    except ImportError:
+        import subprocess
+        deps = os.path.join(HERE, '.deps')
+        subprocess.call([sys.executable, '-m', 'pip', 'install', '-q', '--no-index', '--find-links', '/opt/veriftools/wheels',
+                         '--target', deps, 'hypothesis'])
+        sys.path.insert(1, deps)
+        os.environ['PYTHONPATH'] = deps + os.pathsep + os.environ.get('PYTHONPATH', '')
     from vlib import boot
     try:
         boot.base()
